@@ -19,14 +19,17 @@ Fixpoint prefix_of (p s : list N) : bool :=
 (** * Row keys of displacement arrays (read side, Side._iter_disp_row) *)
 (** The reader accepts a key that starts with [rr_prefix] (or fully matches prefix + digits, for a regular-expression
     reader) and takes the integer denoted by the characters from position [rr_skip] on, which must be between
-    [rr_min] and [rr_max] digits (no upper limit when [rr_max] is None). *)
-Record rowreader := mk_rowreader { rr_prefix : list N; rr_skip : nat; rr_min : nat; rr_max : option nat }.
+    [rr_min] and [rr_max] digits (no upper limit when [rr_max] is None).  A reader that looks the key up in a precomputed
+    table  { prefix + str(y) : y  for y in range(B) }  (round 5) knows the indexes below [rr_below = Some B] only. *)
+Record rowreader := mk_rowreader { rr_prefix : list N; rr_skip : nat; rr_min : nat; rr_max : option nat; rr_below : option N }.
 Definition digits_in_range (r : rowreader) (n : nat) : bool :=
   Nat.leb (rr_min r) n && match rr_max r with Some m => Nat.leb n m | None => true end.
 Definition read_row (r : rowreader) (name : list N) : option N :=
   if prefix_of (rr_prefix r) name then
     let ds := skipn (rr_skip r) name in
-    if forallb is_digit ds && digits_in_range r (List.length ds) then Some (parse_digits ds) else None
+    if forallb is_digit ds && digits_in_range r (List.length ds)
+       && match rr_below r with Some b => parse_digits ds <? b | None => true end
+    then Some (parse_digits ds) else None
   else None.
 (** the writer's key for row y: literal prefix + str(y) *)
 Definition row_key (wprefix : list N) (y : N) : list N := wprefix ++ digits y.
